@@ -1672,7 +1672,7 @@ def split_data(data, ratios, random_state=42):
 
     """
     # Check inputs
-    if np.sum(ratios) != 1:
+    if abs(np.sum(ratios) - 1) > 1e-9:
         raise ValueError("The elements in ratios must add up to 1.")
     # Split the data into folds
     n_folds = len(ratios)
